@@ -24,6 +24,12 @@ pub struct AccessMonitor {
     pub min_init_gap_bits: f64,
     pub min_reply_gap_bits: f64,
     token_senders: u128,
+    /// Last validated claim: (transmission, start of the silence it was measured from).
+    last_claim: Option<(usize, u64)>,
+    /// The excluded un-synchronised claim race happened (DESIGN 5.2): two token holders exist
+    /// legitimately; what follows is recovery (C06), not fault-free operation.
+    void: bool,
+    n_excluded_races: u64,
 }
 
 impl AccessMonitor {
@@ -43,6 +49,9 @@ impl AccessMonitor {
             min_init_gap_bits: f64::MAX,
             min_reply_gap_bits: f64::MAX,
             token_senders: 0,
+            last_claim: None,
+            void: false,
+            n_excluded_races: 0,
         }
     }
 }
@@ -56,6 +65,10 @@ impl Monitor for AccessMonitor {
         if matches!(ev, StationEv::Online | StationEv::Restart) {
             self.online_at[st] = w.now;
         }
+        // a station that leaves takes the token with it
+        if matches!(ev, StationEv::Offline | StationEv::Crash | StationEv::Online | StationEv::Restart) && self.holder == Some(w.stations[st].cfg.addr) {
+            self.holder = None;
+        }
     }
 
     fn on_tx(&mut self, w: &World, idx: usize) {
@@ -66,10 +79,32 @@ impl Monitor for AccessMonitor {
         self.prev = Some(idx);
         let addr = w.addr_of_node(tx.sender);
 
+        if self.void {
+            return;
+        }
         // (a) overlap
         if tx.collided {
             let other = bus.collisions.iter().rev().find(|(_, b)| *b == idx).map(|(a, _)| *a);
             let o = other.map(|o| &bus.txs[o]);
+            // The excluded race (DESIGN 5.2): both transmissions are claims, each after the
+            // claimant's own full time-out, and the two time-outs did not start together because
+            // one claimant went online on the already silent bus.
+            if let (Some((ci, since_common)), Some(oi), Some(Frame::Token { da, sa })) = (self.last_claim, other, tx.frame.as_ref()) {
+                if self.authority && tx.real && ci == oi && addr == Some(*sa) && da == sa && bus.txs[oi].real {
+                    let st = tx.sender;
+                    let ost = bus.txs[oi].sender;
+                    let since = since_common.max(self.online_at[st]);
+                    let silence = tx.start.saturating_sub(since);
+                    let need = token_lost_timeout_ticks(w, st);
+                    let tol = tol_ticks(w, st, 2, need);
+                    let unsync = self.online_at[st] > since_common || self.online_at[ost] > since_common;
+                    if unsync && silence + tol >= need {
+                        self.void = true;
+                        self.n_excluded_races += 1;
+                        return;
+                    }
+                }
+            }
             w.violate(
                 self.prop,
                 "access.overlap",
@@ -180,6 +215,7 @@ impl Monitor for AccessMonitor {
                         return;
                     }
                     self.n_claims += 1;
+                    self.last_claim = Some((idx, prev.map(|p| p.end()).unwrap_or(0)));
                 } else {
                     w.violate(
                         self.prop,
@@ -261,6 +297,7 @@ impl Monitor for AccessMonitor {
         s.add("access.tokens", self.n_tokens);
         s.add("access.token_retries", self.n_retries);
         s.add("access.claims", self.n_claims);
+        s.add("probe.excluded_unsynchronised_claim_race", self.n_excluded_races);
         s.add("access.replies_by_real_stations", self.n_replies);
         s.add("access.distinct_token_senders", self.token_senders.count_ones() as u64);
         if self.min_init_gap_bits < f64::MAX {
